@@ -23,6 +23,15 @@ pub fn new_bounded<T>(size: usize) -> (LocalSender<T>, LocalReceiver<T>) {
 impl<T> LocalSender<T> {
     /// `WouldBlock` only when full, `Closed` when the receiver is gone.
     pub fn try_send(&self, item: T) -> Result<(), GlommioError<T>> {
+        let r = self.try_send_inner(item);
+        if let Err(GlommioError::WouldBlock(_)) = &r {
+            // a caller that does not wait: the message is lost to it (reach measure)
+            crate::LOCAL_FULL.fetch_add(1, std::sync::atomic::Ordering::Relaxed);
+            aquatic_verif_rt::engine::log("local-channel-full", 0, 0);
+        }
+        r
+    }
+    fn try_send_inner(&self, item: T) -> Result<(), GlommioError<T>> {
         let mut s = self.0.borrow_mut();
         if !s.receiver_alive {
             return Err(GlommioError::Closed(ResourceType::Channel(item)));
@@ -40,7 +49,7 @@ impl<T> LocalSender<T> {
     }
     pub async fn send(&self, item: T) -> Result<(), GlommioError<T>> {
         let mut item = Some(item);
-        std::future::poll_fn(|c| match self.try_send(item.take().unwrap()) {
+        std::future::poll_fn(|c| match self.try_send_inner(item.take().unwrap()) {
             Ok(()) => Poll::Ready(Ok(())),
             Err(GlommioError::WouldBlock(ResourceType::Channel(i))) => {
                 item = Some(i);
